@@ -9,6 +9,7 @@
 import SA.Model.Routing
 import SA.Gen.PkgVars
 import SA.Gen.LoopVars
+import SA.Gen.C12Handler
 namespace SA.Props.C03
 open SA.Routing SA.Gen
 
@@ -456,3 +457,14 @@ theorem C03_per_item_handlers :
 end SA.PkgState
 
 #print axioms SA.PkgState.C03_per_item_handlers
+
+namespace SA.PkgState
+/-- **dns_endpoints_have_their_own_handler**: a DNS tunnel endpoint registers its query handler on a handler table of its
+    own, installed before the server starts to serve (regenerated) — not on the DNS library's process-wide default table,
+    where the endpoint registered last would answer the queries of every DNS endpoint of the process with *its*
+    session table and *its* allow-list.  This is what lets `runAt` (SA.Model.Routing) treat DNS endpoints like the
+    other server kinds: the request is judged by the list of the endpoint it arrived on. -/
+theorem C03_dns_endpoints_have_their_own_handler : Gen.dnsHandlerOnOwnMux = true := by decide
+end SA.PkgState
+
+#print axioms SA.PkgState.C03_dns_endpoints_have_their_own_handler
